@@ -299,7 +299,10 @@ def run_fire(job):
 
     def ev_complete(n, t):
         w.obs = sched_h.new_obs()
-        if n not in tags or not w.ev_reply(n, t, 'success', []):
+        # every other schedule: the units succeed WITHOUT storing anything (empty value list) -- then nothing
+        # re-organises the queue after the completion
+        out = 'empty' if int(job['id']) % 2 else 'success'
+        if n not in tags or not w.ev_reply(n, t, out, []):
             return False
         log('Complete', t=t, n=n)
         return True
